@@ -270,7 +270,12 @@ func runCheck(prop, tier string, seed int) (int, *Evidence) {
 		}
 	}
 	Discharge(results, dir, timeout, 12, stats)
-	retried := Retry(results, dir, 3*timeout, stats)
+	retried := 0
+	if os.Getenv("VCHECK_NESTED") == "" {
+		retried = Retry(results, dir, 3*timeout, stats)
+	}
+	// (the nested replay of a seeded change skips the retry pass: the same functions were just discharged within budget on the
+	// tree without the change, so an obligation that is not discharged now fails because of the change)
 
 	known := loadKnown()
 	nObl, nOK, nCanary, nCanaryOK := 0, 0, 0, 0
